@@ -63,6 +63,26 @@ class StubDtls:
     async def _send_data(self, data):
         if self.state != "connected":
             raise ConnectionError("Cannot send encrypted data, not connected")
+        tr = self.world.cfg.get("turn_refresh")
+        if tr and tr["side"] == self.name:
+            # buggify (separate configuration): on a TURN-relayed path aioice re-binds the channel every few
+            # minutes, and every send issued while that STUN transaction is outstanding suspends for about a
+            # round trip before the datagram leaves
+            self.sends = getattr(self, "sends", 0) + 1
+            now = self.world.loop.time()
+            if self.sends == tr["nth"]:
+                self.refresh_until = now + tr["dur"]
+                self.world.probes["turn_refresh_windows"] += 1
+            until = getattr(self, "refresh_until", 0.0)
+            if now < until:
+                self.world.probes["sends_suspended"] += 1
+                self.world.suspended_sends += 1
+                try:
+                    await asyncio.sleep(until - now)
+                finally:
+                    self.world.suspended_sends -= 1
+                if self.state != "connected":
+                    raise ConnectionError("Cannot send encrypted data, not connected")
         self.world.on_wire(self.name, data)
         self.link_out.send(data)
 
@@ -245,6 +265,9 @@ def generate(ch, profile):
             t0 = ch.uniform("cfg", 0.0, 20.0)
             cfg["blackout"] = [ch.choice("cfg", ["a2b", "b2a"]), t0, t0 + ch.choice("cfg", [0.5, 3.0, 10.0, 70.0])]
     cfg["heal_delay"] = ch.choice("cfg", [0.0, 1.0, 5.0, 30.0, 90.0])
+    if ch.chance("cfg", 0.12):
+        cfg["turn_refresh"] = {"side": ch.choice("cfg", ["A", "B"]), "nth": ch.choice("cfg", [3, 6, 10, 20, 40, 80]),
+                               "dur": ch.choice("cfg", [0.005, 0.05, 0.3])}
     nchan = ch.choice("wl", [1, 1, 2, 2, 3, 4, 5])
     chans = [gen_channel(ch, k, profile) for k in range(nchan)]
     ops = []
@@ -365,6 +388,7 @@ class World:
         self.stopped = set()
         self.phase = "faults"
         self.wire_bad = 0
+        self.suspended_sends = 0
 
         import aiortc.rtcsctptransport as sctpmod
         from aiortc.rtcdatachannel import RTCDataChannel, RTCDataChannelParameters
@@ -723,6 +747,9 @@ class World:
                     continue
                 amt = chan.bufferedAmount
                 lo, hi = model.model_amount[side]
+                if self.suspended_sends:
+                    # a message is "handed to the transport" but the transport has not returned yet
+                    hi += 70000
                 if chan.readyState in ("closing", "closed"):
                     # queued data may be discarded when the channel goes away
                     if amt < 0:
@@ -1382,7 +1409,7 @@ def finish(world, spec, ch, cfg, ops, harness):
         "transitions": sorted(world.transitions),
         "nontrivial": bool(world.probes.get("messages_delivered", 0) > 0
                            and (sum(v for k, v in faults.items() if k not in ("node_switch",)) > 0)),
-        "config_class": "fault_free" if cfg.get("fault_free") else "faulty",
+        "config_class": ("fault_free" if cfg.get("fault_free") else "faulty") + ("+turn-refresh" if cfg.get("turn_refresh") else ""),
         "other_violations": [v["property"] + ":" + v["signature"] for v in world.violations
                              if v["property"] not in (prop, "HARNESS")][:5],
     }
